@@ -200,10 +200,10 @@ type c05Stats struct {
 }
 
 type c05Checker struct {
-	c     *Ctx
-	cache map[[32]byte]string // image hash -> dump or "!error"
-	st    c05Stats
-	tmp   map[[32]byte]memfs.Image // distinct crash images that contain a stale temp file
+	c          *Ctx
+	cache      map[[32]byte]string // image hash -> dump or "!error"
+	st         c05Stats
+	tmp        map[[32]byte]memfs.Image // distinct crash images that contain a stale temp file
 	nonTrivial map[[32]byte]bool
 }
 
